@@ -331,3 +331,16 @@ Lemma witness_refutes :
 Proof.
   intros H. specialize (H w_prog false). rewrite witness_rejected_after, witness_accepted in H. discriminate.
 Qed.
+
+(* ---- the names used in DESIGN.md ------------------------------------------------------------------------------ *)
+Theorem C38_simplify (state : Type) (inc : str -> state -> option state) (fstr_val : str -> state -> option str)
+        (nonlit_val : N -> state -> option (list str)) (other : N -> state -> option state) p st :
+  hoisted p = false ->
+  eval state inc fstr_val nonlit_val other (simplify p) st = eval state inc fstr_val nonlit_val other p st.
+Proof. intros H. apply eval_simplify, H. Qed.
+
+Theorem C38_idem p : simplify (simplify p) = simplify p.
+Proof. apply simplify_idem. Qed.
+
+Theorem C38_flatten p : flatten (simplify p) = flatten p.
+Proof. apply flatten_simplify. Qed.
